@@ -141,6 +141,72 @@ theorem decStr_int (c : Nat) : decStr false c 0 = nstr c := by
   have h2 : ¬ ((0 : Int) + ((nstr c).length : Int) ≤ 0) := by omega
   simp [hne]
 
+/-! ## digit strings -/
+
+/-- all characters are digits with ASCII values (what `nstr` produces and what the theorems feed the parser) -/
+def AsciiDigs (s : Str) : Prop := ∀ c ∈ s, 48 ≤ c ∧ c ≤ 57
+
+theorem nstr_ascii (n : Nat) : AsciiDigs (nstr n) := by
+  induction n using Nat.strongRecOn with
+  | _ n ih =>
+    by_cases h : n < 10
+    · rw [nstr_lt10 n h]; intro c hc; simp at hc; omega
+    · rw [nstr_ge10 n (by omega)]
+      intro c hc
+      rcases List.mem_append.mp hc with hc | hc
+      · exact ih (n / 10) (by omega) c hc
+      · simp at hc; omega
+
+theorem dv_ascii {dv : Nat → Option Nat} (h : DvOK dv) (c : Nat) (hc : 48 ≤ c ∧ c ≤ 57) : dv c = some (c - 48) := by
+  have := h.1 (c - 48) (by omega)
+  rwa [show 48 + (c - 48) = c by omega] at this
+
+theorem takeDigits_append {dv : Nat → Option Nat} (h : DvOK dv) (s rest : Str) (hs : AsciiDigs s) :
+    takeDigits dv (s ++ rest) = s ++ takeDigits dv rest := by
+  induction s with
+  | nil => rfl
+  | cons c r ih =>
+    have hc := hs c (by simp)
+    simp [takeDigits, isDig, dv_ascii h c hc, ih (fun x hx => hs x (by simp [hx]))]
+
+theorem takeDigits_nondigit {dv : Nat → Option Nat} (c : Nat) (rest : Str) (hc : dv c = none) :
+    takeDigits dv (c :: rest) = [] := by
+  simp [takeDigits, isDig, hc]
+
+theorem parseNatDv_append (dv : Nat → Option Nat) (a : Str) (c : Nat) :
+    parseNatDv dv (a ++ [c]) = parseNatDv dv a * 10 + (dv c).getD 0 := by
+  simp [parseNatDv, List.foldl_append]
+
+/-- `int(str(n)) = n` -/
+theorem parseNatDv_nstr {dv : Nat → Option Nat} (h : DvOK dv) (n : Nat) : parseNatDv dv (nstr n) = n := by
+  induction n using Nat.strongRecOn with
+  | _ n ih =>
+    by_cases hn : n < 10
+    · rw [nstr_lt10 n hn]; simp [parseNatDv, h.1 n hn]
+    · rw [nstr_ge10 n (by omega), parseNatDv_append, ih (n / 10) (by omega), h.1 (n % 10) (by omega)]
+      simp; omega
+
+/-- `(?P<amount>\\d*\\.?\\d+)` on a non-empty ASCII digit string followed by a unit letter -/
+theorem matchAmount_int {dv : Nat → Option Nat} (h : DvOK dv) (s : Str) (u : Nat) (rest : Str) (hs : AsciiDigs s)
+    (hne : s ≠ []) (hu : dv u = none) (hu46 : u ≠ 46) :
+    matchAmount dv (s ++ u :: rest) = some (s, u :: rest) := by
+  unfold matchAmount
+  rw [takeDigits_append h s _ hs, takeDigits_nondigit u rest hu]
+  simp only [List.append_nil, List.drop_left]
+  split
+  · rename_i heq; simp at heq; exact absurd heq.1 hu46
+  · cases s with
+    | nil => exact absurd rfl hne
+    | cons a r => simp
+
+/-- `Decimal(s)` for an ASCII digit string -/
+theorem parseDecimal_int {dv : Nat → Option Nat} (h : DvOK dv) (s : Str) (hs : AsciiDigs s) :
+    parseDecimal dv s = .dec false (parseNatDv dv s) 0 := by
+  unfold parseDecimal
+  have := takeDigits_append h s [] hs
+  simp only [List.append_nil] at this
+  simp [this, takeDigits]
+
 /-! ## ISO renderings -/
 
 def d2 (n : Nat) : Str := [48 + n / 10, 48 + n % 10]
